@@ -243,6 +243,8 @@ class Interp:
                 if sub is not None:
                     return sub
             return Opaque(f"{mod}.{attr}")
+        if name == "__name__":
+            return m.name
         if name in _SAFE_BUILTINS:
             return _SAFE_BUILTINS[name]
         if name in _EXC_NAMES:
@@ -976,6 +978,33 @@ class ReleaseFlow:
             self._cache[key] = hit
         return hit
 
+    def _route(self, disp: int, classes: frozenset[str], depth: int = 0) -> set[int]:
+        """Successors of a try-dispatch node that an exception of one of ``classes`` can take: the first handler
+        covering the class, every handler for a subclass of it, and the outward edge when no handler covers it."""
+        cfg = self.cfg
+        model = getattr(self.live_exc, "model", None)
+        node = cfg.nodes[disp]
+        succ = cfg.succ[disp]
+        t = node.stmt
+        if model is None or not isinstance(t, ast.Try) or node.kind != "dispatch" or depth > 8 or len(succ) < len(t.handlers):
+            return set(succ)
+        out: set[int] = set()
+        outer = succ[len(t.handlers)] if len(succ) > len(t.handlers) else None
+        for k in classes:
+            h = model.first_covering(t, k)
+            if h is not None:
+                out.add(succ[t.handlers.index(h)])
+                continue
+            for i, hh in enumerate(t.handlers):
+                if model.may_cover(hh, k):
+                    out.add(succ[i])
+            if outer is not None:
+                if cfg.nodes[outer].kind == "dispatch":
+                    out |= self._route(outer, frozenset({k}), depth + 1)
+                else:
+                    out.add(outer)
+        return out
+
     def _run(self) -> None:
         cfg = self.cfg
         self._cache: dict[tuple[int, frozenset[str]], tuple[frozenset[str], frozenset[str], list[Leak]]] = {}
@@ -983,15 +1012,25 @@ class ReleaseFlow:
         state[cfg.entry] = frozenset()
         work = [cfg.entry]
         found: dict[tuple[str, str, int], Leak] = {}
+        self.routed: dict[tuple[int, int], set[int]] = {}
         while work:
             u = work.pop()
             su = state[u]
             assert su is not None
             node = cfg.nodes[u]
-            for v in cfg.succ[u]:
-                lab = cfg.label.get((u, v), "")
+            for v0 in cfg.succ[u]:
+              lab = cfg.label.get((u, v0), "")
+              targets = [v0]
+              st = node.stmt
+              if su and lab == "exc" and st is not None and node.kind in ("attempt", "test", "loop", "raise") and cfg.nodes[v0].kind == "dispatch":
+                  cls_fn = getattr(self.live_exc, "classes", None)
+                  if cls_fn is not None and (node.kind == "raise" or self.live_exc(st)):
+                      ks = cls_fn(st)
+                      if ks:
+                          targets = sorted(self._route(v0, ks))
+                          self.routed[(u, v0)] = set(targets)
+              for v in targets:
                 out = su
-                st = node.stmt
                 if st is not None and node.kind in ("attempt", "test", "loop", "raise"):
                     if lab == "exc":
                         if su and node.kind != "raise" and not self.live_exc(st):
@@ -1124,20 +1163,38 @@ def assignments_to(fi: FunctionInfo, name: str) -> list[ast.AST]:
 def live_exc_pred(ea: EscapeAnalysis, fi: FunctionInfo) -> Callable[[ast.AST], bool]:
     """Statement-level predicate: can the header of this statement raise according to the escape model
     (explicit raises in resolved callees, user-code calls, rule-supplied partial operations)?"""
-    cache: dict[int, bool] = {}
+    cache: dict[int, frozenset[str]] = {}
 
-    def pred(st: ast.AST) -> bool:
+    def classes(st: ast.AST) -> frozenset[str]:
         k = id(st)
         if k not in cache:
-            live = False
+            out: set[str] = set()
             for h in _header_exprs(st):
                 if isinstance(h, ast.Raise):
-                    live = True
-                    break
-                if ea._escapes_of_expr(fi, h, 0):
-                    live = True
-                    break
-            cache[k] = live
+                    from ..exc import raised_class
+
+                    out.add(raised_class(h) or "Exception")
+                    if h.exc is not None:
+                        out |= {e.cls for e in ea._escapes_of_expr(fi, h.exc, 0)}
+                    continue
+                out |= {e.cls for e in ea._escapes_of_expr(fi, h, 0)}
+            cache[k] = frozenset(out)
         return cache[k]
 
+    def pred(st: ast.AST) -> bool:
+        return bool(classes(st))
+
+    pred.classes = classes  # type: ignore[attr-defined]
+    pred.model = ea.model  # type: ignore[attr-defined]
     return pred
+
+
+def require_count(ctx, rule: str, n: int, minimum: int, what: str) -> None:
+    """Vacuity guard (``Ctx.require_count``) that does not mask a violation already found: when some clause has
+    failed, fewer matching sites is the expected consequence of the same change, not anchor drift."""
+    from ..core import load_known
+
+    known = {(k["property"], k["rule"], k["function"], k["instance"]) for k in load_known()}
+    if any((not o.ok) and o.key(ctx.prop) not in known for o in ctx.obligations):
+        return
+    ctx.require_count(rule, n, minimum, what)
